@@ -718,7 +718,7 @@ def run(ctx, only_cases=None):
     try:
         pinfo = vlib.coq_properties("C18")
         vlib.proof_coverage(ctx, pinfo, "make -C coq Properties/C18.vo && coqc Properties/C18.v (Print Assumptions audit)",
-                            extra_obligations=6)  # the 6 regenerated side conditions in Proofs/SideC18.v
+                            extra_obligations=7)  # the 7 regenerated side conditions in Proofs/SideC18.v
     except vlib.Broken as b:
         broken = b
 
@@ -731,6 +731,8 @@ def run(ctx, only_cases=None):
         trials = 200 if thorough else 40
         cases += [{"kind": "race", "which": w, "trials": trials} for w in ("ban", "bl", "perm", "permfail", "blperm")]
         cases += [{"kind": "shadow", "which": w, "trials": trials} for w in ("exact", "range")]
+        cases += [{"kind": "sweeprace", "which": w, "trials": 12 if thorough else 4, "keys": 3000} for w in ("ban", "bl")]
+        cases.append({"kind": "addr"})
         for entry in ("allowip", "allowipburst", "allowtunnel"):
             cases.append({"kind": "burst", "entry": entry, "goroutines": 32, "keys": 60 if thorough else 25,
                           "cfg": {"rate": ctx.rng.choice([7, 13]), "burst": ctx.rng.choice([1, 2, 3]), "ttl_ms": 60000}})
@@ -742,6 +744,7 @@ def run(ctx, only_cases=None):
     # ---- (iii) direct replays of the two schedules on the real code
     ambiguous_trials = 0
     probe = {}
+    addr_probe = {}
     for c, o in zip(cases, outs):
         if c["kind"] == "race":
             ambiguous_trials += o["pre_not_expired"]
@@ -749,6 +752,25 @@ def run(ctx, only_cases=None):
                 key, what = RACES[c["which"]]
                 ctx.violation(key, "%s: the entry established right after the query was gone in %d of %d trials (the removal "
                               "spawned by the query on the expired entry deleted it)" % (what, o["lost"], o["trials"]),
+                              {"case": c, "observed": o})
+        elif c["kind"] == "sweeprace":
+            if o["lost"] > 0:
+                ctx.violation("cleanup-erases-renewed-entry", "%d lapsed temporary %s are in the table; cleanup() runs while 6 goroutines re-establish "
+                              "some of them for an hour: %d renewed entries were gone afterwards (%d trials) - the sweep deleted by key "
+                              "what it had seen expired earlier" % (c["keys"], "bans" if c["which"] == "ban" else "blacklist entries",
+                                                                     o["lost"], o["trials"]), {"case": c, "observed": o})
+        elif c["kind"] == "addr":
+            bykey, bad_pairs = {}, []
+            for txt, k, p in zip(o["forms"], o["keys"], o["peers"]):
+                for txt2, k2, p2 in bykey.get("all", []):
+                    if (p == p2) != (k == k2):
+                        bad_pairs.append("%s -> %r vs %s -> %r" % (txt2, k2, txt, k))
+                bykey.setdefault("all", []).append((txt, k, p))
+            addr_probe.update({"shapes": len(o["keys"]), "distinct_keys": len(set(o["keys"]))})
+            if bad_pairs or o.get("evaded"):
+                ctx.violation("address-key-depends-on-shape", "extractIP keys one peer differently depending on the shape of its address "
+                              "(or merges two peers): %s%s" % ("; ".join(bad_pairs[:3]),
+                                                               (" | end to end: " + "; ".join(o["evaded"][:2])) if o.get("evaded") else ""),
                               {"case": c, "observed": o})
         elif c["kind"] == "shadow":
             ambiguous_trials += o["pre_not_expired"]
@@ -899,7 +921,7 @@ def run(ctx, only_cases=None):
         "race_trials": sum(o["trials"] for o in races), "race_trials_ambiguous": ambiguous_trials,
         "race_trials_entry_lost": sum(o["lost"] for o in races),
         "token_forms_probed": [{"token": t, "registers": r, "charged": c} for t, r, c in zip(TOK["forms"], TOK["registers"], TOK["charged"])],
-        "inflight_schedules": len(infl), "blacklist_lookup_probe": probe,
+        "inflight_schedules": len(infl), "blacklist_lookup_probe": probe, "address_key_probe": addr_probe,
         "burst_first_request_rounds": sum(len(o["admitted"]) for c, o in zip(cases, outs) if c["kind"] == "burst"), "model_vs_impl_cases": len(tcs), "model_vs_impl_mismatches": len(mism),
         "cases_explained_by_pinned_variant": explained, "cases_with_recorded_predicate_findings": known_spec, "impl_property_failures": nfail,
         "input_distribution": dist, "generated_file_changed": gen_changed,
